@@ -1,9 +1,12 @@
-(* C10 (second half): the reported counts equal the observable change. *)
+(* C10.  Second half (C10_history): the reported counts equal the observable change.
+   First half (C10_find_is_scan ... C10_entry_points_agree): every filter-taking entry point
+   selects through the one scan  iter_documents c (patch f) = Ok (c1, m). *)
 From Coq Require Import ZArith List String Bool.
-From Verif Require Import Value PyEq Filter Update Coll HistCheck HistProps HistGuards C10Proofs.
+From Verif Require Import Value PyEq Filter Update Coll HistCheck HistProps HistGuards C14Base C14Ops C10Proofs C10Entry C10Examples.
 Import ListNotations.
 Open Scope Z_scope.
 Open Scope string_scope.
+Open Scope list_scope.
 
 Theorem C10_history : forall (pre5 : bool) (ops : list op),
   c10_reasons ops (model_obs pre5 empty_coll ops) = 0 ->
@@ -38,3 +41,223 @@ Example C10_guard_satisfiable :
         None; None; None].
 Proof. vm_compute. repeat split; reflexivity. Qed.
 Print Assumptions C10_guard_satisfiable.
+
+(* ------------------------------------------------------------------------------------------
+   First half: one match relation.  Throughout, c is any state, VDoc fs any filter document,
+   and the premise  iter_documents c (patch (VDoc fs)) = Ok (c1, m)  says that the scan
+   succeeds: c1 is the state after the lazy TTL pass, m the matching (key, document) pairs of
+   docs c1 in natural order -  m = matching f (docs c1) = filter (is_match f) (docs c1).
+   Premises used below (all defined in Proofs/C10Entry.v):
+     docs_only m      every matched entry holds a document (find/distinct copy documents);
+     self_keyed s     looking a stored document up by its own _id finds its own entry
+                      (delete goes through the _id of the found document);
+     no_unique c, applies_cleanly ...   only for the total form of update_many.
+   Refuted/C10.v has a checked counterexample for each premise. *)
+
+Theorem C10_scan_is_filter : forall c f c1 m,
+  iter_documents c f = Ok (c1, m) ->
+  expire c = Ok c1 /\ m = matching f (docs c1).
+Proof. exact scan_is_filter. Qed.
+Print Assumptions C10_scan_is_filter.
+
+(* 1. find: the documents of m, in order; with sort / skip / limit: the sorted window of m *)
+Theorem C10_find_is_scan : forall c fs c1 m,
+  iter_documents c (patch (VDoc fs)) = Ok (c1, m) -> docs_only m ->
+  find_op c (VDoc fs) None [] 0 0 = (c1, Ok (VArr (map snd m))).
+Proof. exact find_is_scan. Qed.
+Print Assumptions C10_find_is_scan.
+
+Theorem C10_find_window_is_scan : forall c fs proj sort skip limit c1 m,
+  iter_documents c (patch (VDoc fs)) = Ok (c1, m) ->
+  find_op c (VDoc fs) proj sort skip limit =
+    match sort_docs sort (map snd m) with
+    | Err e => (c, Err e)
+    | Ok s => match project_all proj s with
+              | Err e => (c1, Err e)
+              | Ok l => (c1, Ok (VArr (cursor_slice skip limit l)))
+              end
+    end.
+Proof. exact find_is_scan_gen. Qed.
+Print Assumptions C10_find_window_is_scan.
+
+Theorem C10_find_one_is_scan : forall c fs c1 m,
+  iter_documents c (patch (VDoc fs)) = Ok (c1, m) -> docs_only m ->
+  find_one c (VDoc fs) None [] = (c1, Ok (hd_error (map snd m))).
+Proof. exact find_one_is_scan. Qed.
+Print Assumptions C10_find_one_is_scan.
+
+(* 2. count *)
+Theorem C10_count_is_scan : forall c fs c1 m,
+  iter_documents c (patch (VDoc fs)) = Ok (c1, m) ->
+  count_op c (VDoc fs) 0 None = (c1, Ok (VInt (Z.of_nat (List.length m)))).
+Proof. exact count_is_scan. Qed.
+Print Assumptions C10_count_is_scan.
+
+Theorem C10_count_window_is_scan : forall c fs skip l c1 m,
+  iter_documents c (patch (VDoc fs)) = Ok (c1, m) -> 0 < l ->
+  count_op c (VDoc fs) skip (Some l)
+  = (c1, Ok (VInt (Z.min (Z.max (Z.of_nat (List.length m) - skip) 0) l))).
+Proof. exact count_limit_is_scan. Qed.
+Print Assumptions C10_count_window_is_scan.
+
+(* 3. delete_many removes exactly the entries of m (order of the rest kept) and reports
+      length m; delete_one removes exactly the first entry of m *)
+Theorem C10_delete_many_is_scan : forall c fs c1 m,
+  iter_documents c (patch (VDoc fs)) = Ok (c1, m) -> self_keyed (docs c1) ->
+  exists c2, delete_op c (VDoc fs) true
+             = (c2, Ok (VDoc [("deleted", VInt (Z.of_nat (List.length m)))]))
+             /\ docs c2 = unmatched (patch (VDoc fs)) (docs c1)
+             /\ idx c2 = idx c1 /\ now c2 = now c1 /\ next_oid c2 = next_oid c1.
+Proof. exact delete_many_is_scan. Qed.
+Print Assumptions C10_delete_many_is_scan.
+
+Theorem C10_delete_one_is_scan : forall c fs c1 m,
+  iter_documents c (patch (VDoc fs)) = Ok (c1, m) -> self_keyed (docs c1) ->
+  match m with
+  | [] => delete_op c (VDoc fs) false = (c1, Ok (VDoc [("deleted", VInt 0)]))
+  | (k, d) :: _ =>
+      exists pre post c2,
+        docs c1 = pre ++ (k, d) :: post /\ Forall (ffalse (patch (VDoc fs))) pre
+        /\ delete_op c (VDoc fs) false = (c2, Ok (VDoc [("deleted", VInt 1)]))
+        /\ docs c2 = pre ++ post
+        /\ idx c2 = idx c1 /\ now c2 = now c1 /\ next_oid c2 = next_oid c1
+  end.
+Proof. exact delete_one_is_scan. Qed.
+Print Assumptions C10_delete_one_is_scan.
+
+(* 4. update: whenever update_many succeeds it reports matched = length m (no premise on the
+      state); update_one reports min 1 (length m) and touches the first entry of m *)
+Theorem C10_update_many_matched : forall c1 m pre5 c fs u c' v,
+  iter_documents c (patch (VDoc fs)) = Ok (c1, m) ->
+  update_op pre5 c (VDoc fs) u true false = (c', Ok v) ->
+  get_field "matched" v = Some (VInt (Z.of_nat (List.length m))).
+Proof. exact update_many_matched. Qed.
+Print Assumptions C10_update_many_matched.
+
+Theorem C10_update_one_matched : forall c1 m pre5 c fs u c' v,
+  iter_documents c (patch (VDoc fs)) = Ok (c1, m) ->
+  update_op pre5 c (VDoc fs) u false false = (c', Ok v) ->
+  get_field "matched" v = Some (VInt (Z.min 1 (Z.of_nat (List.length m)))) /\
+  match m with
+  | [] => c' = c1 /\ get_field "modified" v = Some (VInt 0)
+  | (k, d) :: _ =>
+      exists md', get_field "modified" v = Some (VInt md') /\
+                  touched_first c1 c' (patch (VDoc fs)) (patch u) k d 0 md'
+  end.
+Proof. exact update_one_matched. Qed.
+Print Assumptions C10_update_one_matched.
+
+(* the total form: no unique index, and the update applies cleanly to every matched document *)
+Theorem C10_update_many_total : forall pre5 c fs ufs c1 m,
+  iter_documents c (patch (VDoc fs)) = Ok (c1, m) ->
+  first_key_dollar (VDoc ufs) = Some true ->
+  empty_operator pre5 (patch (VDoc ufs)) = false ->
+  no_unique c ->
+  Forall (applies_cleanly (patch (VDoc fs)) (patch (VDoc ufs)) (now c) (odocs c)) m ->
+  exists c' md,
+    update_op pre5 c (VDoc fs) (VDoc ufs) true false
+    = (c', Ok (update_result (Z.of_nat (List.length m)) md None)).
+Proof. exact update_many_total. Qed.
+Print Assumptions C10_update_many_total.
+
+(* 5. distinct("_id") is the set of the _ids of m *)
+Theorem C10_distinct_is_scan : forall c fs c1 m,
+  iter_documents c (patch (VDoc fs)) = Ok (c1, m) ->
+  Forall (fun kd => exists i, doc_id (snd kd) = Some i /\ is_arr i = false) m ->
+  forallb hashable_top (ids_of m) = true ->
+  distinct_op c "_id" (VDoc fs) = (c1, Ok (VDoc [("$set", VArr (dedup (ids_of m)))])).
+Proof. exact distinct_is_scan. Qed.
+Print Assumptions C10_distinct_is_scan.
+
+Theorem C10_distinct_is_scan_gen : forall c fs c1 m,
+  iter_documents c (patch (VDoc fs)) = Ok (c1, m) -> docs_only m ->
+  distinct_op c "_id" (VDoc fs)
+  = if existsb (fun v => negb (hashable_top v)) (id_vals m)
+    then (c1, Err EType)
+    else (c1, Ok (VDoc [("$set", VArr (dedup (id_vals m)))])).
+Proof. exact distinct_is_scan_gen. Qed.
+Print Assumptions C10_distinct_is_scan_gen.
+
+(* pairwise different ids are all kept: the set has length m elements *)
+Theorem C10_dedup_distinct_keys : forall l, knd l -> dedup l = l.
+Proof. exact dedup_knd. Qed.
+Print Assumptions C10_dedup_distinct_keys.
+
+(* 6. the corollary.  Without any premise on the state: whatever succeeds reports length m *)
+Theorem C10_entry_points_agree_cond : forall pre5 c fs c1 m,
+  iter_documents c (patch (VDoc fs)) = Ok (c1, m) ->
+  let f := VDoc fs in
+  let n := Z.of_nat (List.length m) in
+  count_op c f 0 None = (c1, Ok (VInt n))
+  /\ (forall c' v, find_op c f None [] 0 0 = (c', Ok v) -> c' = c1 /\ v = VArr (map snd m))
+  /\ (forall c' v, delete_op c f true = (c', Ok v) -> v = VDoc [("deleted", VInt n)])
+  /\ (forall u c' v, update_op pre5 c f u true false = (c', Ok v) ->
+                     get_field "matched" v = Some (VInt n))
+  /\ (forall c' v, delete_op c f false = (c', Ok v) -> v = VDoc [("deleted", VInt (Z.min 1 n))])
+  /\ (forall u c' v, update_op pre5 c f u false false = (c', Ok v) ->
+                     get_field "matched" v = Some (VInt (Z.min 1 n))).
+Proof. exact entry_points_agree_cond. Qed.
+Print Assumptions C10_entry_points_agree_cond.
+
+(* on a self-keyed store the reads and the deletes also succeed *)
+Theorem C10_entry_points_agree : forall pre5 c fs c1 m,
+  iter_documents c (patch (VDoc fs)) = Ok (c1, m) ->
+  self_keyed (docs c1) ->
+  let f := VDoc fs in
+  let n := Z.of_nat (List.length m) in
+  count_op c f 0 None = (c1, Ok (VInt n))
+  /\ (exists l, find_op c f None [] 0 0 = (c1, Ok (VArr l)) /\ Z.of_nat (List.length l) = n)
+  /\ (exists c2, delete_op c f true = (c2, Ok (VDoc [("deleted", VInt n)])))
+  /\ (forall u c' v, update_op pre5 c f u true false = (c', Ok v) ->
+                     get_field "matched" v = Some (VInt n))
+  /\ (exists t, find_one c f None [] = (c1, Ok t) /\ (t <> None <-> m <> []))
+  /\ (exists c2 k, delete_op c f false = (c2, Ok (VDoc [("deleted", VInt k)]))
+                   /\ (k = 1 <-> m <> []) /\ (k = 0 <-> m = []))
+  /\ (forall u c' v, update_op pre5 c f u false false = (c', Ok v) ->
+        exists k, get_field "matched" v = Some (VInt k)
+                  /\ (k = 1 <-> m <> []) /\ (k = 0 <-> m = [])).
+Proof. exact entry_points_agree. Qed.
+Print Assumptions C10_entry_points_agree.
+
+(* the premises are decidable / satisfiable *)
+Theorem C10_self_keyed_check : forall s, self_keyedb s = true -> self_keyed s.
+Proof. exact self_keyedb_sound. Qed.
+Print Assumptions C10_self_keyed_check.
+
+Theorem C10_self_keyed_simple : forall s,
+  knd (skeys s) ->
+  Forall (fun kd => doc_id (snd kd) = Some (fst kd) /\ py_eq (fst kd) (fst kd) = true) s ->
+  self_keyed s.
+Proof. exact self_keyed_simple. Qed.
+Print Assumptions C10_self_keyed_simple.
+
+(* a concrete history (c10_entry_ops, Proofs/C10Examples.v): a TTL index, five inserts/upserts,
+   then the clock moves so that the lazy TTL pass of the scan removes a document that would
+   have matched (c1 <> c).  The premises of every theorem above hold, and all entry points
+   report 2. *)
+Example C10_entry_premises_satisfiable :
+  exists c1 m,
+    iter_documents c10_entry_c (patch (VDoc c10_entry_fs)) = Ok (c1, m)
+    /\ self_keyed (docs c1) /\ docs_only m
+    /\ List.length (docs c10_entry_c) = 5%nat /\ List.length (docs c1) = 4%nat
+    /\ map fst m = [VInt 2; VStr "s"]
+    /\ Forall (fun kd => exists i, doc_id (snd kd) = Some i /\ is_arr i = false) m
+    /\ forallb hashable_top (ids_of m) = true
+    /\ first_key_dollar (VDoc c10_entry_ufs) = Some true
+    /\ empty_operator false (patch (VDoc c10_entry_ufs)) = false
+    /\ no_unique c10_entry_c
+    /\ Forall (applies_cleanly (patch (VDoc c10_entry_fs)) (patch (VDoc c10_entry_ufs))
+                               (now c10_entry_c) (odocs c10_entry_c)) m.
+Proof. exact entry_premises_satisfiable. Qed.
+Print Assumptions C10_entry_premises_satisfiable.
+
+Example C10_entry_points_on_example :
+  snd (count_op c10_entry_c (VDoc c10_entry_fs) 0 None) = Ok (VInt 2)
+  /\ snd (delete_op c10_entry_c (VDoc c10_entry_fs) true) = Ok (VDoc [("deleted", VInt 2)])
+  /\ snd (delete_op c10_entry_c (VDoc c10_entry_fs) false) = Ok (VDoc [("deleted", VInt 1)])
+  /\ snd (distinct_op c10_entry_c "_id" (VDoc c10_entry_fs))
+     = Ok (VDoc [("$set", VArr [VInt 2; VStr "s"])])
+  /\ snd (update_op false c10_entry_c (VDoc c10_entry_fs) (VDoc c10_entry_ufs) true false)
+     = Ok (VDoc [("matched", VInt 2); ("modified", VInt 2); ("upserted_id", VNull)]).
+Proof. exact entry_points_on_example. Qed.
+Print Assumptions C10_entry_points_on_example.
